@@ -181,7 +181,7 @@ partial def loadG (j : Json) : G :=
   | "leaf" => .leaf name m (jbool j "mandatory") (optStr j "dflt")
   | "leaf-list" => .leafList name m (optNat j "min") (optNat j "max")
   | "choice" => .choice name m (jbool j "mandatory") (optStr j "dflt") kids
-  | "uses" => .uses (bytesOf (jstr j "g")) (qualIff (jarr j "iff")) ((jarr j "refines").map refineOf)
+  | "uses" => .uses (bytesOf (jstr j "g")) (qualIff (jarr j "iff")) (((jarr j "refines").filter fun rf => jstr rf "prop" ≠ "must").map refineOf)
       ((jarr j "augments").map fun a => .aug (toks (jarr a "path")) (qualIff (jarr a "iff")) ((jarr a "kids").map loadG))
   | _ => .case name m kids
 
